@@ -441,3 +441,119 @@ def timestep_clause(vals, kind):
     ref = cfl * (np.array([dx] * n) if kind == "euler2d" else size) / rho
     show(kind=kind, W=W, cfl=cfl, dt=dt.tolist(), expected=ref.tolist())
     return dt.shape == (n,) and close(dt, ref) and bool(np.all(dt > 0))
+
+
+# --------------------------------------------------------------------------------------
+# C16
+
+def _tot(g, W, v2=None):
+    r, u, p = W
+    v2 = u * u if v2 is None else v2
+    X = 1 + (g - 1) / 2 * v2 / (g * p / r)
+    return p * X ** (g / (g - 1)), p / r * X
+
+
+def bc_clause(vals, kind, bc, dir, clause=None):
+    model = build_model(kind, vals)
+    prm = {k[4:]: num(v) for k, v in vals.items() if k.startswith("prm_") and v is not None}
+    for k in ("ptot", "rttot", "p"):
+        prm.setdefault(k, {"ptot": 1.4, "rttot": 1.1, "p": 1.0}[k])
+    prm["type"] = bc
+    g = num(vals.get("gamma"), 1.4)
+    if kind == "euler2d":
+        W = [num(vals.get("W%d" % k), DEFAULT_STATE[kind][k]) for k in range(4)]
+        if W[0] <= 0 or W[3] <= 0:
+            return True
+        n = 2
+        data = to_pdata_n(kind, W, n)
+        d = np.array([[dir[0]] * n, [dir[1]] * n], dtype=float)
+        out = model.namedBC(bc, d, data, prm)
+        r1, V1, p1 = np.asarray(out[0], float), np.asarray(out[1], float), np.asarray(out[2], float)
+        un0, un1 = W[1] * dir[0] + W[2] * dir[1], V1[0] * dir[0] + V1[1] * dir[1]
+        ut0, ut1 = -W[1] * dir[1] + W[2] * dir[0], -V1[0] * dir[1] + V1[1] * dir[0]
+        show(kind=kind, bc=bc, dir=dir, W=W, out=[r1[0], V1[0, 0], V1[1, 0], p1[0]], params=prm)
+        if bc == "sym":
+            return close(un1, -un0) and close(ut1, ut0) and close(r1, W[0]) and close(p1, W[3])
+        if bc == "outsup":
+            return close(r1, W[0]) and close(V1[0], W[1]) and close(V1[1], W[2]) and close(p1, W[3])
+        if bc == "outsub":
+            return close(p1, prm["p"]) and close(r1, W[0]) and close(V1[0], W[1]) and close(V1[1], W[2])
+        if bc in ("insub", "insup"):
+            pin = W[3] if bc == "insub" else prm["p"]
+            ok = close(p1, pin) and bool(np.all(un1 <= 1e-12)) and close(ut1, 0 * ut1)
+            if prm["ptot"] >= pin:
+                pt, rt = _tot(g, [r1[0], 0.0, p1[0]], V1[0, 0] ** 2 + V1[1, 0] ** 2)
+                ok = ok and close(pt, prm["ptot"]) and close(rt, prm["rttot"])
+            return ok
+        return True
+    if bc == "dirichlet":
+        return True
+    if kind == "shallowwater":
+        W = [num(vals.get("W0"), 1.0), num(vals.get("W1"), 0.5)]
+        out = model.namedBC(bc, dir, [np.array([W[0]]), np.array([W[1]])], prm)
+        show(kind=kind, bc=bc, W=W, out=[float(o[0]) for o in out])
+        if bc == "sym":
+            return close(out[0], W[0]) and close(out[1], -W[1])
+        return close(out[0], W[0]) and close(out[1], W[1])
+    W = [num(vals.get("W%d" % k), DEFAULT_STATE[kind][k]) for k in range(3)]
+    if W[0] <= 0 or W[2] <= 0:
+        return True
+    out = model.namedBC(bc, dir, [np.float64(w) for w in W], prm)
+    o = [float(x) for x in out]
+    gmu = g - 1
+    a0, a1 = math.sqrt(g * W[2] / W[0]), math.sqrt(abs(g * o[2] / o[0])) if o[0] != 0 else float("nan")
+    pt0, rt0 = _tot(g, W)
+    pt1, rt1 = _tot(g, o) if o[0] > 0 and o[2] > 0 else (float("nan"), float("nan"))
+    show(kind=kind, bc=bc, dir=dir, W=W, out=o, params={k: v for k, v in prm.items() if k != "type"}, clause=clause)
+    checks = {
+        "admissible": o[0] > 0,
+        "normal-velocity-reversed": close(o[1], -W[1]), "density-kept": close(o[0], W[0]), "pressure-kept": close(o[2], W[2]),
+        "copies": close(o, W),
+        "pressure-imposed": close(o[2], prm["p"]),
+        "density-velocity-copied": close(o[:2], W[:2]),
+        "pressure": close(o[2], W[2] if bc == "insub" else prm["p"]),
+        "flows-inwards": -dir * o[1] >= -1e-12,
+        "flows-outwards": dir * o[1] >= -1e-12,
+        "total-temperature": (prm["ptot"] < (W[2] if bc == "insub" else prm["p"]) and bc != "insub_cbc") or close(rt1, prm["rttot"]),
+        "total-pressure": (prm["ptot"] < (W[2] if bc == "insub" else prm["p"]) and bc != "insub_cbc") or close(pt1, prm["ptot"]),
+        "at-rest-outside-regime": prm["ptot"] >= (W[2] if bc == "insub" else prm["p"]) or o[1] == 0,
+        "total-temperature-kept": pt0 < prm["p"] or close(rt1, rt0),
+        "total-pressure-kept": pt0 < prm["p"] or close(pt1, pt0),
+        "outgoing-invariant": close(o[1] + dir * 2 * a1 / gmu, W[1] + dir * 2 * a0 / gmu),
+        "entropy-kept": close(o[2] / o[0] ** g, W[2] / W[0] ** g) if o[0] > 0 else False,
+    }
+    if clause in ("rh-momentum", "rh-energy", "no-jump-copies"):
+        if abs(o[0] - W[0]) < 1e-14:
+            return close(o, W) if abs(prm["p"] - W[2]) < 1e-14 else True
+        Ws = (o[0] * o[1] - W[0] * W[1]) / (o[0] - W[0])
+        w0, w1 = W[1] - Ws, o[1] - Ws
+        if clause == "rh-momentum":
+            return close(o[0] * w1 * w1 + o[2], W[0] * w0 * w0 + W[2])
+        if clause == "rh-energy":
+            return close(g / gmu * o[2] / o[0] + w1 * w1 / 2, g / gmu * W[2] / W[0] + w0 * w0 / 2)
+        return True
+    if clause not in checks:
+        return True
+    return bool(checks[clause])
+
+
+def wall_flux_clause(vals, kind, flux, normal, side):
+    model = build_model(kind, vals)
+    normal = tuple(normal) if normal else None
+    W = state_from(vals, "WL", kind)
+    if (kind == "shallowwater" and W[0] <= 0) or (kind in ("euler1d", "nozzle") and (W[0] <= 0 or W[2] <= 0)) \
+            or (kind == "euler2d" and (W[0] <= 0 or W[3] <= 0)):
+        return True
+    if kind == "euler2d":
+        un = W[1] * normal[0] + W[2] * normal[1]
+        Wb = [W[0], W[1] - 2 * un * normal[0], W[2] - 2 * un * normal[1], W[3]]
+    else:
+        Wb = list(W)
+        Wb[1] = -W[1]
+    F = numflux(model, kind, flux, W, Wb, normal) if side == "right-wall" else numflux(model, kind, flux, Wb, W, normal)
+    show(kind=kind, flux=flux, side=side, W=W, wall_image=Wb, F=F)
+    sc = max(1.0, max(abs(f) for f in F))
+    ok = abs(F[0]) <= 1e-9 * sc
+    if kind != "shallowwater":
+        ok = ok and abs(F[-1]) <= 1e-9 * sc
+    return ok
